@@ -173,8 +173,71 @@ fn run_seq<C: Codec>(case: &Value, out: &mut Out) {
     }
 }
 
+/// Build an object with the coefficients `c` through a HISTORY, so that hidden storage (spare Vec capacity) and internal state differ
+/// from those of a freshly constructed or cloned polynomial.
+fn build<C: Codec>(c: &[C::T], hist: &str, junk: C::T) -> Polynomial<C::T> {
+    let zero = <C::T as ohsl::Zero>::zero();
+    let trimmable = !c.is_empty() && (c.len() == 1 || c[c.len() - 1] != zero);
+    match hist {
+        "cap" => { let mut v = Vec::with_capacity(12); for x in c { v.push(*x); } Polynomial::new(v) }
+        "pushpop" => { let mut v = c.to_vec(); while v.len() < 12 { v.push(junk); } let mut p = Polynomial::new(v); while p.size() > c.len() { p.coeffs().pop(); } p }
+        "refill" => { let mut p = Polynomial::new(vec![junk; 12]); p.coeffs().clear(); for x in c { p.coeffs().push(*x); } p }
+        "trimmed" if trimmable => { let mut v = c.to_vec(); while v.len() < 12 { v.push(zero); } let mut p = Polynomial::new(v); p.trim(); p }
+        "trunc" | "trimmed" => { let mut v = c.to_vec(); while v.len() < 12 { v.push(junk); } let mut p = Polynomial::new(v); p.coeffs().truncate(c.len()); p }
+        "result" => { let a = Polynomial::new(c.iter().map(|x| *x - junk).collect::<Vec<C::T>>()); let b = Polynomial::new(vec![junk; c.len()]); &a + &b }
+        "indexed" => { let mut p = Polynomial::new(vec![junk; c.len()]); for (i, x) in c.iter().enumerate() { p[i] = *x; } p }
+        _ => Polynomial::new(c.to_vec()),
+    }
+}
+
+/// Histories and moves: operands are built through histories (hist_p / hist_q); every observer is called on the operand, the operand ITSELF
+/// (not a clone) is then consumed by / passed to each operation, and every observer is called on the result.  Events are the usual ones.
+fn run_hist<C: Codec>(case: &Value, out: &mut Out) {
+    let dec = |key: &str| -> Vec<C::T> { let a = arr(&case[key]); let b = case.get(format!("{}i", key).as_str()).map(arr); a.iter().enumerate().map(|(k, x)| C::dec(x, b.as_ref().and_then(|y| y.get(k)))).collect() };
+    let (pc, qc) = (dec("p"), dec("q"));
+    let (hp, hq) = (gets(case, "hist_p").to_string(), gets(case, "hist_q").to_string());
+    let xs = scalars::<C>(case, "xs"); let ss = scalars::<C>(case, "ss");
+    let junk = C::dec(&json!(7), Some(&json!(0)));
+    let (x0, s0) = (&xs[0], &ss[0]); let (xv, sv) = (C::dec(&x0.0, x0.1.as_ref()), C::dec(&s0.0, s0.1.as_ref()));
+    // all observers on a live object; logged or only called (to fill whatever the object remembers)
+    let observe = |out: &mut Out, o: &Polynomial<C::T>, log: bool, step: usize| {
+        if !log { let _ = guarded(|| { let _ = o.derivative(); let _ = o.derivative_n(2); let _ = o.derivative_at(xv, 1); let _ = o.eval(xv); let _ = o.degree(); let _ = o.is_zero(); o.size() }); return; }
+        let m = Polynomial::<C::T>::new((0..o.size()).map(|i| o[i]).collect());
+        let tag = |e: &mut Value| { e["step"] = json!(step); e["hist_p"] = json!(hp.clone()); };
+        poly_op_live::<C>(case, out, "derivative", "ref", &m, None, Some(o), &tag, &|a, _| a.derivative());
+        poly_op_live::<C>(case, out, "derivative_n", "ref", &m, None, Some(o), &|e| { tag(e); e["n"] = json!(2); }, &|a, _| a.derivative_n(2));
+        val_op_live::<C>(case, out, "derivative_at", &m, None, Some(o), &|e| { tag(e); e["n"] = json!(1); set_sc(e, "x", x0); }, &|| o.derivative_at(xv, 1));
+        val_op_live::<C>(case, out, "eval", &m, None, Some(o), &|e| { tag(e); set_sc(e, "x", x0); }, &|| o.eval(xv));
+        { let mut e = base::<C>(case, "degree", "ref", &m, None); tag(&mut e);
+          match guarded(|| o.degree()) { Ok(Ok(d)) => { e["ok"] = json!(true); e["d"] = json!(d); } Ok(Err(_)) => { e["ok"] = json!(false); e["d"] = json!(-1); } Err(_) => { e["panic"] = json!(true); e["ok"] = json!(false); e["d"] = json!(-1); } } out.ev(e); }
+        { let mut e = base::<C>(case, "is_zero", "ref", &m, None); tag(&mut e);
+          match guarded(|| o.is_zero()) { Ok(b) => e["b"] = json!(b), Err(_) => { e["panic"] = json!(true); e["b"] = json!(false); } } out.ev(e); }
+    };
+    let mp = Polynomial::<C::T>::new(pc.clone()); let mq = Polynomial::<C::T>::new(qc.clone());
+    let ops: [(&str, &str, usize); 16] = [("neg", "own", 0), ("scale", "own", 0), ("add", "own", 0), ("add", "own", 1), ("sub", "own", 0), ("sub", "own", 1), ("mul", "own", 0), ("mul", "own", 1),
+                                         ("neg", "ref", 0), ("scale", "ref", 0), ("add", "ref", 0), ("add", "ref", 1), ("sub", "ref", 0), ("sub", "ref", 1), ("mul", "ref", 0), ("mul", "ref", 1)];
+    for (k, (op, form, pos)) in ops.iter().enumerate() {
+        // fresh operands through their histories; the history-built P sits at position `pos` (0 left, 1 right)
+        let p = build::<C>(&pc, &hp, junk); let q = build::<C>(&qc, &hq, junk);
+        observe(out, &p, k % 4 == 0, k); observe(out, &q, false, k);
+        let own = *form == "own";
+        let mut e = if *pos == 0 { base::<C>(case, op, form, &mp, if matches!(*op, "neg" | "scale") { None } else { Some(&mq) }) } else { base::<C>(case, op, form, &mq, Some(&mp)) };
+        e["step"] = json!(k); e["hist_p"] = json!(hp.clone()); e["hist_q"] = json!(hq.clone()); e["pos"] = json!(pos);
+        if *op == "scale" { set_sc(&mut e, "s", s0); }
+        let r = guarded(move || match (*op, own, *pos) {
+            ("neg", true, _) => -p, ("neg", false, _) => -&p,
+            ("scale", true, _) => p * sv, ("scale", false, _) => &p * sv,
+            ("add", true, 0) => p + q, ("add", true, _) => q + p, ("add", false, 0) => &p + &q, ("add", false, _) => &q + &p,
+            ("sub", true, 0) => p - q, ("sub", true, _) => q - p, ("sub", false, 0) => &p - &q, ("sub", false, _) => &q - &p,
+            ("mul", true, 0) => p * q, ("mul", true, _) => q * p, ("mul", false, 0) => &p * &q, (_, _, _) => &q * &p });
+        match r { Ok(res) => { put_poly::<C>(&mut e, "r", &res); out.ev(e); observe(out, &res, true, k); }
+                  Err(_) => { e["panic"] = json!(true); e["r"] = json!([]); if C::KIND == "c" { e["ri"] = json!([]); } out.ev(e); } }
+    }
+}
+
 pub fn run<C: Codec>(case: &Value, out: &mut Out) {
     if gets(case, "bat") == "seq" { return run_seq::<C>(case, out); }
+    if gets(case, "bat") == "hist" { return run_hist::<C>(case, out); }
     let p = poly_from::<C>(&case["p"], case.get("pi"));
     let q = poly_from::<C>(&case["q"], case.get("qi"));
     let own = gets(case, "form") == "own";
@@ -336,6 +399,22 @@ pub fn gen(tier: &str, seed: u64, out: &mut Out) {
         if cxs { c["pi"] = json!(p0.iter().map(|c| c.1).collect::<Vec<i64>>()); c["qi"] = json!([0]); c["xsi"] = json!([1]); c["ssi"] = json!([]); }
         push(out, c);
     } } } } }
+    // (a5) histories and moves: operands built through histories (spare capacity, earlier results, index writes ...), observed, then the operand
+    //      ITSELF consumed by / passed to every operation in both positions, and the result observed
+    let hists = ["plain", "cap", "pushpop", "refill", "trimmed", "trunc", "result", "indexed"];
+    for (ti, ty) in tys.iter().enumerate() { for (hi, hp) in hists.iter().enumerate() { for combo in 0..4usize { for rep in 0..(if quick { 1 } else { 5 }) {
+        let cxs = *ty == "cx";
+        let (lp, lq) = match combo { 0 => { let a = rng.gen_range(1..=5usize); (a, a + rng.gen_range(1..=4usize)) }          // left shorter
+                                     1 => { let b = rng.gen_range(1..=5usize); (b + rng.gen_range(1..=4usize), b) }          // left longer
+                                     2 => { let a = rng.gen_range(1..=9usize); (a, a) }
+                                     _ => if rep % 2 == 0 { (0, rng.gen_range(1..=6usize)) } else { (rng.gen_range(1..=6usize), 0) } };
+        let hq = hists[(hi + 3 * combo + rep + ti) % hists.len()];
+        let (x0, s0, xi0, si0) = ([2i64, -1, 1, -2][rng.gen_range(0..4)], [3i64, -2, -1, 2][rng.gen_range(0..4)], [1i64, 0, -1][rng.gen_range(0..3)], [1i64, 0, -2][rng.gen_range(0..3)]);
+        let mut c = json!({"ty": ty, "bat": "hist", "form": "own", "p": coeffs(&mut rng, lp, 9, true), "q": coeffs(&mut rng, lq, 9, true), "hist_p": hp, "hist_q": hq,
+                           "xs": [x0], "ss": [s0], "beyond": 0});
+        if cxs { c["pi"] = json!(coeffs(&mut rng, lp, 9, false)); c["qi"] = json!(coeffs(&mut rng, lq, 9, false)); c["xsi"] = json!([xi0]); c["ssi"] = json!([si0]); }
+        push(out, c);
+    } } } }
     // (b) rational coefficients and scalars (Polynomial<Rat>), degree <= 4
     for _ in 0..(if quick { 40 } else { 600 }) {
         let (lp, lq) = (rng.gen_range(0..=5usize), rng.gen_range(0..=5usize));
